@@ -29,9 +29,11 @@ import traceback
 
 from harness import core, gen, histcheck, isoapi
 
-LEAN_MODULES = ['Pycdlib.Props.C15']
+LEAN_MODULES = ['Pycdlib.Props.C15', 'Pycdlib.Props.C15Ranges']
 THEOREMS = ['Pycdlib.Walk.walk_nodup', 'Pycdlib.Walk.walk_bounded', 'Pycdlib.Walk.walk_terminates', 'Pycdlib.Walk.walk_fuel_irrelevant',
-            'Pycdlib.Walk.cycle_example', 'Pycdlib.Walk.nodup_bounded_length']
+            'Pycdlib.Walk.cycle_example', 'Pycdlib.Walk.nodup_bounded_length',
+            'Pycdlib.Ranges.claim_sorted', 'Pycdlib.Ranges.claim_refuses_overlap', 'Pycdlib.Ranges.total_le',
+            'Pycdlib.Ranges.walk_reads_each_sector_once']
 PARTIAL = {
     'open_documented_partial': 'termination and the work bound are proved for the directory-walk skeleton (the only unbounded loop '
     'driven by attacker-controlled pointers); that every slice/unpack/lookup inside the ~9 kLoC of parse methods raises only '
@@ -43,7 +45,8 @@ RULE = ('mutants = truncations + field corruptions + splices of seed images; dis
         'mutant is not byte-identical to its seed and the parser reaches the mutated bytes or rejects the image')
 LEVEL_TEXT = ('Lean 4 theorem: a breadth-first directory walk that skips already-visited extents terminates, visits each extent at most '
               'once and at most one per sector, for any (cyclic) child relation — the shape the repaired _walk_directories / '
-              '_walk_udf_directories have. Exception classes, time and memory on damaged images are decided by mutation of seed images.')
+              '_walk_udf_directories have; the sector ranges the ISO9660 walk accepts stay sorted and disjoint, so the directory sectors it reads '
+              'add up to at most the size of the image for ANY sequence of directory records (walk_reads_each_sector_once), tied on random layouts. Exception classes, time and memory on damaged images are decided by mutation of seed images.')
 LEVEL_NOTE = 'Trusted: Lean kernel; mutation generator; alarm-based timing.'
 TECHNIQUE = 'Lean 4 termination/bound proof for the walk skeleton + structure-aware mutation oracle in worker processes'
 
@@ -415,7 +418,229 @@ def seed_images(ctx, tmpdir, count):
     return out
 
 
+# ---------------------------------------------------------------- crafted images (no single-field mutation builds these)
+
+def _b32(v):
+    return struct.pack('<L', v) + struct.pack('>L', v)
+
+
+def _dir_entries(img, extent, length):
+    base, off = extent * 2048, 0
+    while off < length:
+        n = img[base + off]
+        if n == 0:
+            off = (off // 2048 + 1) * 2048
+            continue
+        pos = base + off
+        yield pos, bytes(img[pos + 33: pos + 33 + img[pos + 32]]), struct.unpack_from('<L', img, pos + 2)[0], struct.unpack_from('<L', img, pos + 10)[0]
+        off += n
+
+
+def craft_diamonds(depth):
+    """a chain of `depth` directories; every level has two records, D and E, and E is re-pointed at D's extent: no cycle,
+    about 2 KiB per level, but 2^depth paths — a walk must notice that an extent is reached twice"""
+    import pycdlib
+    iso = pycdlib.PyCdlib()
+    iso.new(interchange_level=4)
+    path = ''
+    for _ in range(depth):
+        iso.add_directory(path + '/D')
+        iso.add_directory(path + '/E')
+        path += '/D'
+    out = io.BytesIO()
+    iso.write_fp(out)
+    iso.close()
+    img = bytearray(out.getvalue())
+    ext = struct.unpack_from('<L', img, 16 * 2048 + 156 + 2)[0]
+    ln = struct.unpack_from('<L', img, 16 * 2048 + 156 + 10)[0]
+    for _ in range(depth):
+        ents = {name: (pos, e, l) for pos, name, e, l in _dir_entries(img, ext, ln)}
+        if b'D' not in ents or b'E' not in ents:
+            break
+        _, de, dl = ents[b'D']
+        pos = ents[b'E'][0]
+        img[pos + 2: pos + 10] = _b32(de)
+        img[pos + 10: pos + 18] = _b32(dl)
+        ext, ln = de, dl
+    return bytes(img)
+
+
+def craft_dirs(k, subs, root_blocks=None):
+    """a hand-made ISO9660 image: a run of k blocks of empty-file records after the path tables; the root directory starts
+    the run (its first blocks hold the records of the sub-directories), and every sub-directory record (i, l) points at
+    block i of the run with a length of l blocks.  Returns (image, first sector of the run, blocks of the root)."""
+    import pycdlib
+
+    def drec(name, extent, length, flags):
+        n = len(name)
+        ln = 33 + n + (1 - n % 2)
+        r = struct.pack('<BB', ln, 0) + _b32(extent) + _b32(length) + bytes(7) + bytes([flags, 0, 0]) + struct.pack('<H', 1) + struct.pack('>H', 1) + bytes([n]) + name
+        return r.ljust(ln, b'\x00')
+
+    def blocks(recs):
+        out, cur = b'', b''
+        for r in recs:
+            if len(cur) + len(r) > 2048:
+                out += cur.ljust(2048, b'\x00')
+                cur = b''
+            cur += r
+        return out + cur.ljust(2048, b'\x00')
+    iso = pycdlib.PyCdlib()
+    iso.new(interchange_level=3)
+    o = io.BytesIO()
+    iso.write_fp(o)
+    iso.close()
+    base = bytearray(o.getvalue()[:18 * 2048])
+    fileblocks = [blocks([drec(b'F%07d' % (b * 100 + j), 0, 0, 0) for j in range(48)]) for b in range(k)]
+    names = [b'D%04d' % n for n in range(len(subs))]
+    h = len(blocks([drec(b'\x00', 0, 0, 2), drec(b'\x01', 0, 0, 2)] + [drec(nm, 0, 0, 2) for nm in names])) // 2048
+    rb = k if root_blocks is None else max(h, root_blocks)
+    ptsize = 10 + 14 * len(subs)
+    ptb = (ptsize + 2047) // 2048
+    le_loc, be_loc = 18, 18 + ptb
+    root = be_loc + ptb
+    hdr = [drec(b'\x00', root, rb * 2048, 2), drec(b'\x01', root, rb * 2048, 2)] + [drec(nm, root + i, l * 2048, 2) for nm, (i, l) in zip(names, subs)]
+    rootdata = blocks(hdr).ljust(h * 2048, b'\x00') + b''.join(fileblocks[h:])
+    le = struct.pack('<BBLH', 1, 0, root, 1) + b'\x00\x00'
+    be = struct.pack('>BBLH', 1, 0, root, 1) + b'\x00\x00'
+    for nm, (i, l) in zip(names, subs):
+        le += struct.pack('<BBLH', 5, 0, root + i, 1) + nm + b'\x00'
+        be += struct.pack('>BBLH', 5, 0, root + i, 1) + nm + b'\x00'
+    pvd = 16 * 2048
+    base[pvd + 80: pvd + 88] = _b32(root + k)
+    base[pvd + 132: pvd + 140] = _b32(ptsize)
+    base[pvd + 140: pvd + 148] = struct.pack('<L', le_loc) + bytes(4)
+    base[pvd + 148: pvd + 156] = struct.pack('>L', be_loc) + bytes(4)
+    base[pvd + 156 + 2: pvd + 156 + 10] = _b32(root)
+    base[pvd + 156 + 10: pvd + 156 + 18] = _b32(rb * 2048)
+    return bytes(base) + le.ljust(ptb * 2048, b'\x00') + be.ljust(ptb * 2048, b'\x00') + rootdata, root, max(h, rb if root_blocks is not None else k), h
+
+
+def craft_overlap(k):
+    """one run of k blocks full of empty-file records is the root directory; its sub-directory records point INTO the run
+    (block i, k-i blocks): no extent is shared and there is no cycle, but every sub-directory re-reads the tail of the
+    run — quadratic work and memory in the image size unless overlapping directories are refused"""
+    h = 1
+    while True:
+        img, _root, _rb, hh = craft_dirs(k, [(i, k - i) for i in range(h, k)])
+        if hh <= h:
+            return img
+        h = hh
+
+
+def ranges_tie(ctx):
+    """random sub-directory ranges behind a short root directory: the walk must accept the image exactly when the Lean model
+    of the claimed ranges (Model/Ranges.claimAll, theorems in Props/C15Ranges) accepts the same sequence"""
+    import pycdlib
+    rng = ctx.rng
+    reqs, impl = [], []
+    for _ in range(40 if ctx.quick else 600):
+        k = rng.randint(6, 24)
+        n = rng.randint(1, 6)
+        # the root needs one block for at most 48 records
+        subs = []
+        for _ in range(n):
+            i = rng.randint(1, k - 1)
+            subs.append((i, rng.randint(1, min(4, k - i))))
+        img, root, rb, h = craft_dirs(k, subs, root_blocks=1)
+        iso = pycdlib.PyCdlib()
+        try:
+            iso.open_fp(io.BytesIO(img))
+            res = 'ok'
+        except Exception as e:  # noqa
+            res = isoapi.exc_class(e)
+        try:
+            iso.close()
+        except Exception:
+            pass
+        reqs.append('claims %s' % ','.join('%d:%d' % (s, n_) for s, n_ in [(root, rb)] + [(root + i, l) for i, l in subs]))
+        impl.append(res)
+    model = ctx.driver.ask(reqs)
+    for rq, a, b in zip(reqs, impl, model):
+        want = 'ok' if b.startswith('ranges') else 'invalidISO'
+        ctx.count(key=('ranges', rq), nontrivial=True, kind='ranges:%s' % a)
+        if a != want:
+            ctx.disagree('S-open/ranges', '%s: library %s, model %s' % (rq, a, b), {'kind': 'ranges', 'request': rq})
+    ctx.traces_validated += len(reqs)
+
+
+def craft_gpt_sizes():
+    """EFI hybrid whose backup GPT header claims 2^31 / 2^32 partition entries (and a distant own LBA): read through a
+    real file this asks the file object for a negative seek / hundreds of GiB"""
+    import pycdlib
+    iso = pycdlib.PyCdlib()
+    iso.new()
+    b = isoapi.isolinux_boot(2048)
+    iso.add_fp(io.BytesIO(b), len(b), '/ISOLINUX.;1')
+    iso.add_fp(io.BytesIO(b'e' * 2048), 2048, '/EFI.;1')
+    iso.add_eltorito('/ISOLINUX.;1', boot_load_size=4)
+    iso.add_eltorito('/EFI.;1', efi=True)
+    iso.add_isohybrid(efi=True)
+    o = io.BytesIO()
+    iso.write_fp(o)
+    iso.close()
+    img = o.getvalue()
+    out = []
+    hdr = len(img) - 512
+    for cur, nparts in ((None, 0x7fffffff), (2 ** 32, 0xffffffff), (1, 0x00ffffff)):
+        m = bytearray(img)
+        if cur is not None:
+            m[hdr + 24: hdr + 32] = struct.pack('<Q', cur)
+        m[hdr + 80: hdr + 84] = struct.pack('<L', nparts)
+        out.append(bytes(m))
+    return out
+
+
+def crafted_worker(args):
+    name, data, via_file = args
+    if not via_file:
+        return name, open_one(data, 8.0)
+    # the same bytes through a real file object (open(filename)): negative seeks and huge reads fail differently there
+    import pycdlib
+    fd, path = tempfile.mkstemp(prefix='verif-c15-crafted-', suffix='.iso')
+    try:
+        with os.fdopen(fd, 'wb') as f:
+            f.write(data)
+        signal.signal(signal.SIGPROF, _alarm)
+        signal.setitimer(signal.ITIMER_PROF, 8.0)
+        iso = pycdlib.PyCdlib()
+        try:
+            try:
+                iso.open(path)
+                out = ('ok', '')
+            finally:
+                signal.setitimer(signal.ITIMER_PROF, 0)
+        except _Timeout:
+            out = ('timeout', 'no result within 8 s of CPU time')
+        except BaseException as e:  # noqa  (MemoryError included)
+            cls = isoapi.exc_class(e)
+            out = (cls, '') if cls in DOCUMENTED else (cls, 'open(filename)')
+        try:
+            iso.close()
+        except Exception:
+            pass
+        return name, out
+    finally:
+        os.unlink(path)
+
+
+def crafted(ctx):
+    jobs = [('diamonds-%d' % d, craft_diamonds(d), False) for d in (12, 28)]
+    jobs += [('overlap-%d' % k, craft_overlap(k), False) for k in ((60, 160) if ctx.quick else (60, 160, 400))]
+    for i, img in enumerate(craft_gpt_sizes()):
+        jobs.append(('gpt-sizes-%d' % i, img, False))
+        jobs.append(('gpt-sizes-%d-file' % i, img, True))
+    with multiprocessing.Pool(min(8, len(jobs)), maxtasksperchild=1) as pool:
+        for name, (outcome, detail) in pool.imap_unordered(crafted_worker, jobs):
+            ctx.count(key=('crafted', name), nontrivial=True, kind='crafted:%s:%s' % (name.split('-')[0], outcome))
+            if outcome not in DOCUMENTED:
+                ctx.violation('C15.crafted/%s/%s' % (name.split('-')[0], outcome), 'open of the crafted image %s -> %s %s' % (name, outcome, detail),
+                              {'kind': 'crafted', 'name': name})
+
+
 def run(ctx):
+    crafted(ctx)
+    ranges_tie(ctx)
     tmpdir = tempfile.mkdtemp(prefix='verif-c15-')
     try:
         nseeds = 6 if ctx.quick else 48
@@ -451,6 +676,11 @@ def run(ctx):
 
 def replay(ctx, obj):
     r = obj.get('replay', obj)
+    if r.get('kind') == 'crafted':
+        crafted(ctx)
+        for v in ctx.violations:
+            core.log('violation:', v['signature'], v['summary'])
+        return [v['signature'] for v in ctx.violations]
     tmpdir = tempfile.mkdtemp(prefix='verif-c15-')
     try:
         c = histcheck.build_case(ctx, random.Random(1), r['cfg'], 0, tmpdir, ops=r['ops'])
